@@ -216,6 +216,11 @@ func (p *copyProp) Gen(r *Rand, tier string, idx int) any {
 					cp.MountPre = append(cp.MountPre, n.ID)
 				}
 			}
+			if (p.id == "C01" || p.id == "C04") && len(mountLists[cp.MountList]) > 1 && r.Chance(0.3) {
+				// the registry refuses mounts from one of the candidates (403): the copy may fail,
+				// but it must not report a blob as mounted that is not there
+				cp.RegProfile.MountDeny = "lib/empty"
+			}
 		}
 	}
 	if r.Chance(0.5) {
@@ -1221,6 +1226,9 @@ func (p *copyProp) runInBubble(rc *RunCtx, sc *Scenario, cp *CopyParams, g *Grap
 				cbs = append(cbs, "MapRoot")
 			}
 			f := FaultSpec{Store: "cb", Op: cbs[cp.FaultPicks[0]%uint64(len(cbs))], Node: int(cp.FaultPicks[1] % uint64(len(g.Nodes))), Occur: 1, Kind: "before"}
+			if w := (cp.FaultPicks[0] / 1024) % 10; w < 4 {
+				f.Wrap = []string{"not-found", "already-exists", "unsupported", "size-exceeds"}[w]
+			}
 			if f.Op == "MapRoot" {
 				f.Node = cp.Root
 			}
@@ -1252,6 +1260,10 @@ func (p *copyProp) runInBubble(rc *RunCtx, sc *Scenario, cp *CopyParams, g *Grap
 		}
 		info.StateHash = hashJSON(sortedKeys(presentSet(env)))
 		probeCopy(info, ex, cp)
+		if env.dst.reg != nil && env.dst.reg.MountDenied > 0 {
+			info.Probes["mount_denied_by_registry"]++
+			netFired++
+		}
 		return accountingOracle(env, ex, info, netFired > 0)
 	}
 	return nil
@@ -1299,10 +1311,17 @@ func (p *copyProp) judgeCopyOnce(rc *RunCtx, env *copyEnv, info *RunInfo, closur
 		info.Probes["platform_nomatch"]++
 		return nil
 	}
+	if env.dst.reg != nil && env.dst.reg.MountDenied > 0 {
+		info.Probes["mount_denied_by_registry"]++
+	}
 	if ex.err != nil {
 		if errors.Is(ex.err, file.ErrDuplicateName) && titlesCollide(g) {
 			// two different blobs under one file name: the file store refuses the second
 			info.Probes["duplicate_name_refused"]++
+			info.Outcome = "legit-refusal"
+			return nil
+		}
+		if env.dst.reg != nil && env.dst.reg.MountDenied > 0 {
 			info.Outcome = "legit-refusal"
 			return nil
 		}
@@ -1490,7 +1509,8 @@ func accountingOracle(env *copyEnv, ex *copyExec, info *RunInfo, netFired bool) 
 		if ex.err == nil {
 			return violation("callback-error-lost", "", "callback %s(node %d) returned an error but the call returned nil", f.Op, f.Node)
 		}
-		if !errors.Is(ex.err, errInjected) {
+		if !errors.Is(ex.err, errInjected) && !netFired {
+			// (with a registry failure in the same run either of the two errors may be the one returned)
 			return violation("callback-error-lost", "", "callback %s(node %d) returned E but the call returned an error that is not E: %v", f.Op, f.Node, ex.err)
 		}
 		info.Probes["callback_error_propagated"]++
